@@ -64,3 +64,61 @@ pub fn rat_of(a: A) -> Option<Rat> {
 }
 
 pub use calc::SLACK;
+
+/// Consumption schedules of a double-ended iterator over `want.len()` items: i items from the front, then j from the
+/// back, then the rest from the front - for all i, j - the mirror images, and the two strict alternations.  Every
+/// schedule must yield each item exactly once: front items in order, back items in reverse order, `None` afterwards,
+/// and a size hint that brackets what is left.  Returns the number of schedules explored or the first deviation.
+pub fn both_ends_schedules<I, T>(mk: impl Fn() -> I, want: &[T]) -> Result<u64, String>
+where
+    I: DoubleEndedIterator<Item = T>,
+    T: PartialEq + std::fmt::Debug,
+{
+    let n = want.len();
+    let mut schedules: Vec<Vec<bool>> = Vec::new(); // true = front
+    for i in 0..=n {
+        for j in 0..=(n - i) {
+            let mut a = vec![true; i];
+            a.extend(std::iter::repeat(false).take(j));
+            a.extend(std::iter::repeat(true).take(n - i - j));
+            schedules.push(a.clone());
+            schedules.push(a.iter().map(|x| !x).collect());
+        }
+    }
+    schedules.push((0..n).map(|k| k % 2 == 0).collect());
+    schedules.push((0..n).map(|k| k % 2 == 1).collect());
+    let mut count = 0u64;
+    for sch in &schedules {
+        count += 1;
+        let mut it = mk();
+        let (mut lo, mut hi) = (0usize, n);
+        for (step, &front) in sch.iter().enumerate() {
+            let (hint_lo, hint_hi) = it.size_hint();
+            let left = hi - lo;
+            if hint_lo > left || hint_hi.map_or(false, |h| h < left) {
+                return Err(format!("schedule {:?}: size_hint {:?} with {left} items left", show_schedule(sch), (hint_lo, hint_hi)));
+            }
+            let (got, exp) = if front {
+                let g = it.next();
+                lo += 1;
+                (g, &want[lo - 1])
+            } else {
+                let g = it.next_back();
+                hi -= 1;
+                (g, &want[hi])
+            };
+            if got.as_ref() != Some(exp) {
+                return Err(format!("schedule {:?}: step {step} ({}) yields {:?}, expected {:?}", show_schedule(sch), if front { "next" } else { "next_back" }, got, exp));
+            }
+        }
+        let (a, b) = (it.next(), it.next_back());
+        if a.is_some() || b.is_some() {
+            return Err(format!("schedule {:?}: yields {:?} / {:?} after all {n} items were consumed", show_schedule(sch), a, b));
+        }
+    }
+    Ok(count)
+}
+
+fn show_schedule(s: &[bool]) -> String {
+    s.iter().map(|&f| if f { 'F' } else { 'B' }).collect()
+}
